@@ -889,12 +889,13 @@ def observe_datetime(ft):
     from_obj = ft.datetime(naive)
     from_text = ft.datetime("2020-01-02T03:04:05")
     from_aware = ft.datetime(naive.replace(tzinfo=_pydt.timezone(_pydt.timedelta(hours=2))))
-    if from_aware.utcoffset() != _pydt.timedelta(hours=2) or from_aware.replace(tzinfo=None) != naive:
+    wall = lambda d: (d.year, d.month, d.day, d.hour, d.minute, d.second, d.microsecond)  # noqa: E731
+    if from_aware.utcoffset() != _pydt.timedelta(hours=2) or wall(from_aware) != wall(naive):
         raise Unsupported("datetime(aware) changes the value")
     if ft.datetime(0).utcoffset() != _pydt.timedelta(0):
         raise Unsupported("datetime(0) is not UTC")
     for d in (from_obj, from_text):
-        if d.replace(tzinfo=None) != naive or d.utcoffset() not in (None, _pydt.timedelta(0)):
+        if wall(d) != wall(naive) or d.utcoffset() not in (None, _pydt.timedelta(0)):
             raise Unsupported("datetime(naive) changes the wall clock or picks another zone: %r" % d)
     obj_utc = from_obj.utcoffset() is not None
     text_utc = from_text.utcoffset() is not None
